@@ -50,6 +50,12 @@ RULE = ("scheduler: task sets x budget partitions; complete enumeration of {1-2 
         "task key gh: constructed and dropped): systematic arm-work-wait shapes x work sequences x budgets x start "
         "clocks x ticker task, host-built x start clock x late spawn, every duration of the sweep with the stale "
         "deadline before / at / after the await, random mixes; also 1/3 of the Hypothesis and multi cases; "
+        "event payloads as a generated dimension (ids from a palette of 1-3 values, so that several tasks emit EQUAL "
+        "DriverEvents, also within one cycle: periodic emitters sharing / not sharing an id, complete enumeration of 2 "
+        "tasks x 1-2 steps with one id for every emission, random mixes; 1/4 of the Hypothesis and multi drivers); "
+        "budget magnitudes over the whole u64 range (u64::MAX, u64::MAX-1, 2^63(+1), 2^64-2^32, (u64::MAX - clock) + "
+        "{-2..2}, uniform 64-bit; also as tail budget) issued at clocks > 0 (later calls, start clocks up to 2^64-2^32), "
+        "sleeps small so that every wake-up stays far below 2^64; "
         "multi cases: 2-3 such drivers alive on one thread, run_for calls interleaved in a generated order with "
         "block_on interludes (futures that sleep and emit events, in completing or non-completing polls), drivers "
         "created up front or lazily, each compared with itself run alone.  "
@@ -77,9 +83,18 @@ ASSUMPTIONS = [
     "no progress obligation beyond the maintainers' tests: run_for(b) from clock c must serve exactly the wake-ups "
     "in [c, c+b) unless an event ends the run; budget is not consumed while idle (clock only moves to served "
     "wake-up cycles), so a task sleeping >= b is never reached by repeating run_for(b) -- not a violation",
-    "at most one emit_event per resumption (the statement's precondition); event ids unique per case",
-    "cycle values stay below 2^64 (no saturating arithmetic exercised); block_on() is not a subject (it is only "
+    "at most one emit_event per resumption (the statement's precondition); event VALUES need not be unique: 'every "
+    "emitted event exactly once, in emission order' is about emissions, so the returned sequence must equal the "
+    "emission sequence value by value (equal values from different resumptions are all returned)",
+    "wake-up cycles stay far below 2^64-1 (no saturating wake-up exercised); budgets do range over the whole u64 "
+    "domain: run_for(b) from clock c serves the wake-ups in [c, c+b) with c+b taken mathematically (== the "
+    "saturating sum the unchanged driver computes, because no wake-up reaches 2^64-1), so an 'unlimited' budget runs "
+    "to the next event or to completion; block_on() is not a subject (it is only "
     "used as a second user of the thread between run_for calls; nothing is asserted about its own timing)",
+    "CPU cases: before AsyncRuntimeRunner::run_instructions is entered, the host loop it runs (run_for(slice) until "
+    "the completion event, slice+1 after an idle call) is rehearsed with a bound of 1000 calls on a scratch driver "
+    "with the same clock and slice and a sleep-one-cycle task; the unchanged crate needs <= 3 calls; a stall is the "
+    "verdict no-progress (a call-count watchdog, no wall clock) and the crate's unbounded loop is not entered",
     "a driver's behaviour is a function of its own tasks, clock and run_for calls only: other AsyncDrivers or "
     "block_on running on the same thread between its calls are not inputs of any of its tasks, so every verdict "
     "must hold for each driver of an interleaved group and its observation must equal the stand-alone run",
@@ -301,7 +316,9 @@ def _case_strategy(max_tasks: int = 4, max_steps: int = 6, max_budgets: int = 8)
     dur = st.one_of(st.sampled_from(T_D), st.sampled_from(T_D), st.integers(0, 20), big, st.just(SC.YIELD),
                     st.integers(0, 200), st.sampled_from(HOT_D))
     step = st.tuples(dur, st.booleans())
-    bud = st.one_of(st.sampled_from((0,) + T_B), st.sampled_from(T_B), st.integers(0, 40), big)
+    # budgets range over the whole u64 domain (every wake-up cycle stays far below 2^64, so "serve [c, c+b)" is exact)
+    bud = st.one_of(st.sampled_from((0,) + T_B), st.sampled_from(T_B), st.integers(0, 40), big,
+                    st.sampled_from((U64, U64, U64 - 1, 2 ** 63 + 1)))
     clock = st.one_of(st.just(0), st.just(0), st.none(), st.sampled_from([1, 7, 2 ** 32 + 5, 2 ** 62]))
     mk = st.sampled_from((None, None, None, 1, 1, 2, 3, 6, "spawn", "new"))
 
@@ -321,7 +338,14 @@ def _case_strategy(max_tasks: int = 4, max_steps: int = 6, max_budgets: int = 8)
             ghosts = [draw(st.lists(st.tuples(st.integers(-1, max(len(t) - 1, -1)), st.sampled_from(T_D)),
                                     min_size=0, max_size=2)) if draw(st.integers(0, 3)) == 0 else [] for t in ops]
             tasks = _with_mk(tasks, mks, [[list(g) for g in gl] for gl in ghosts])
-        return _mk_case(tasks, budgets, draw(clock))
+        # one case in four: event ids from a palette of 1-3 values (equal DriverEvents from different resumptions)
+        if draw(st.integers(0, 3)) == 0:
+            pal = draw(st.sampled_from(EV_PALETTES))
+            tasks = _repaint(tasks, lambda i, j: draw(st.sampled_from(pal)))
+        case = _mk_case(tasks, budgets, draw(clock))
+        if draw(st.integers(0, 3)) == 0:
+            case["tail_budget"] = U64  # the "unlimited" budget of the repository's own host loop
+        return case
 
     return cases()
 
@@ -704,6 +728,172 @@ def _defer_shard(task: Tuple[int, int, str, int, int]) -> Report:
     return rep
 
 
+# ------------------------------------------------------------------------------------------------
+# scheduler: event payloads (several tasks emit an EQUAL DriverEvent, also within one cycle)
+# ------------------------------------------------------------------------------------------------
+# _assign_events gives every emission its own id, which makes "exactly once" a set comparison -- and holds the
+# payload constant as a dimension: no two emissions of a case ever carry equal values.  The statement says "returns
+# every emitted event exactly once and in emission order" about emissions, whatever their value: in-tree tasks emit
+# one constant id per task (AsyncDisplayTask: the same User(id) every frame) and nothing stops two tasks from
+# sharing one.  Payload cases draw the ids from a palette of 1-3 values; the reference scheduler returns every
+# emission (a multiset per cycle, in order), SC.check compares the sequences value by value.
+
+# (disjoint from the ids block_on interludes emit in multi cases: 1, 2, 7, 900, 901)
+EV_PALETTES = ((42,), (42,), (42, 42, 43), (0, 2 ** 32 - 1), (70, 70, 70, 80), (5, 6, 9))
+
+
+def _repaint(tasks: List[Dict[str, Any]], pick: Any) -> List[Dict[str, Any]]:
+    """Replace the id of every emission by pick(task index, step index (-1 = first poll))."""
+    for i, t in enumerate(tasks):
+        if t.get("se") is not None:
+            t["se"] = pick(i, -1)
+        for j, o in enumerate(t["ops"]):
+            if o[1] is not None:
+                o[1] = pick(i, j)
+    return tasks
+
+
+def _payload_cases(tier: str, seed: int, n_random: int) -> Iterator[Tuple[str, Dict[str, Any]]]:
+    quick = tier == "quick"
+    # (A) periodic emitters (the shape of AsyncDisplayTask: sleep period, emit the task's id, repeat) with shared /
+    # per-task / partly shared ids, with and without an emission in the first poll
+    shapes: List[Tuple[int, ...]] = [(p, q) for p in (1, 2, 3, 4, 6) for q in (1, 2, 3, 4, 6) if p <= q]
+    shapes += [(1, 2, 3), (2, 3, 6), (2, 2, 2), (3, 6, 6), (1, 1, 4, 4)]
+    for periods in shapes:
+        ops = [[[p, 1]] * max(2, min(6, 12 // p)) for p in periods]
+        for ids in ("shared", "per-task", "first-two"):
+            if ids == "first-two" and len(periods) < 3:
+                continue
+            for se in (False, True):
+                for budgets, clock0 in (([], None), ([1], 0), ([2, 3], 7), ([100], 40), ([6, 6], 2 ** 32 + 5)):
+                    tasks = _assign_events(ops, [se] * len(periods))
+                    if ids == "shared":
+                        _repaint(tasks, lambda i, j: 42)
+                    elif ids == "per-task":
+                        _repaint(tasks, lambda i, j: 40 + i)
+                    else:
+                        _repaint(tasks, lambda i, j: 42 if i < 2 else 43)
+                    yield "payload:periodic", _mk_case(tasks, list(budgets), clock0)
+    # (B) complete: 2 tasks x 1-2 steps, d in {0,1,2}, every event placement, every emission carries the same id
+    # (thorough: d in {0,1,2,3} and 3 budget lists more)
+    s12 = _scripts((0, 1, 2) if quick else (0, 1, 2, 3), (1, 2))
+    blists = [[], [1], [2], [1, 2]] if quick else [[], [1], [2], [3], [1, 2], [2, 1], [1, 1]]
+    for a in s12:
+        for b in s12:
+            if not (any(e for _, e in a) and any(e for _, e in b)):
+                continue  # a task that never emits cannot collide
+            for bl in blists:
+                yield "payload:enum-2tasks-one-id", _mk_case(_repaint(_assign_events([a, b]), lambda i, j: 42), list(bl))
+    # (C) random mixes: ids from a palette of 1-3 values
+    for k in range(n_random):
+        st = Stream(seed, k, 0xE7C18)
+        pal = st.choice(EV_PALETTES)
+        ntasks = 1 + st.below(4)
+        ops = [[[st.choice((0, 0, 1, 1, 1, 2, 2, 3, 4, 6, SC.YIELD)), 1 if st.chance(2, 3) else 0]
+                for _ in range(1 + st.below(5))] for _ in range(ntasks)]
+        nb = st.below(4)
+        budgets = [st.choice((1, 2, 3, 5, 100)) for _ in range(nb)]
+        se = [st.chance(1, 3) for _ in range(ntasks)]
+        at = [st.below(nb + 1) if (nb and st.chance(1, 4)) else 0 for _ in range(ntasks)]
+        tasks = _assign_events(ops, se, at)
+        per_task = st.chance(1, 3)  # one constant id per task (in-tree style) / any id at any emission
+        fixed = [st.choice(pal) for _ in range(ntasks)]
+        _repaint(tasks, (lambda i, j: fixed[i]) if per_task else (lambda i, j: st.choice(pal)))
+        yield "payload:random", _mk_case(tasks, budgets, st.choice(HOT_CLOCK))
+
+
+# ------------------------------------------------------------------------------------------------
+# scheduler: budget magnitudes over the whole u64 range
+# ------------------------------------------------------------------------------------------------
+# Every other family passes small budgets, 2^32..2^58, and 2^63 for the tail, always with clock + budget < 2^64.  The
+# unit of run_for is *relative* cycles and its domain is u64: the "unlimited" budget run_for(u64::MAX) is the idiom of
+# the repository's own host loop (bin/pce500.rs), and a host issues it again after every returned event, i.e. with a
+# clock > 0.  Budget cases draw budgets (and the tail budget) from {u64::MAX, u64::MAX-1, 2^63, 2^63+1, 2^64-2^32,
+# (u64::MAX - clock) + {-2..2}, uniform 64-bit} next to small ones, for start clocks 0 .. 2^64-2^32; clock + budget is
+# mathematically >= 2^64 in most calls.  Sleeps stay small, so every wake-up cycle is far below 2^64-1 and "serve the
+# wake-ups in [c, c+b)" (unbounded sum == saturating sum) is exact: an unlimited budget runs to the next event or to
+# completion.
+
+U64 = 2 ** 64 - 1
+BIG_CLOCK = (None, 0, 1, 7, 12, 64, 2 ** 32 + 5, 2 ** 62, 2 ** 63 + 1, 2 ** 64 - 2 ** 32)
+
+
+def _big_budget(st: Stream, clk: int) -> int:
+    r = st.below(10)
+    if r < 3:
+        return U64
+    if r < 4:
+        return st.choice((U64 - 1, 2 ** 63, 2 ** 63 + 1, 2 ** 64 - 2 ** 32))
+    if r < 7:
+        return max(0, min(U64, U64 - clk + st.below(5) - 2))
+    if r < 8:
+        return (st.u32() << 32) | st.u32()
+    return st.choice((1, 2, 3, 5, 100))
+
+
+def _clock_after(case: Dict[str, Any], budgets: List[int]) -> int:
+    """driver clock after the given run_for calls (reference scheduler)"""
+    if not budgets:
+        return int(case.get("clock0") or 0)
+    return SC.model(SC.expanded(case), budgets)["results"][-1][2]
+
+
+def _budget_cases(tier: str, seed: int, n_random: int) -> Iterator[Tuple[str, Dict[str, Any]]]:
+    # systematic: a host loop around an unlimited budget -- small task sets x start clock x tail budget x explicit
+    # budget lists whose big entries are derived from the clock the driver has when the call is issued
+    task_sets = [
+        [[[4, 1], [2, 1], [3, 1], [1, 0]]],
+        [[[4, 1], [2, 0], [3, 1]], [[3, 0], [3, 1], [0, 1]]],
+        [[[1, 0], [1, 0], [1, 1]], [[2, 1], [SC.YIELD, 0]], [[5, 0]]],
+        [[[0, 1], [7, 0], [1, 1]]],
+    ]
+    for n, ops in enumerate(task_sets):
+        for clock0 in BIG_CLOCK:
+            c0 = int(clock0 or 0)
+            for tail in (U64, U64 - 1, 2 ** 63, max(1, U64 - c0 - 3)):
+                for bl in ([], [U64], [U64, U64], [3, U64], [5, 2 ** 63 + 1, U64], ["near-1"], ["near"], ["near+1"],
+                           [4, "near+1", 2, "near"], [0, U64]):
+                    case = _mk_case(_assign_events(ops, [n % 2 == 1] * len(ops)), [], clock0)
+                    case["tail_budget"] = tail
+                    budgets: List[int] = []
+                    for b in bl:
+                        if isinstance(b, str):
+                            clk = _clock_after(case, budgets)
+                            b = max(0, min(U64, U64 - clk + {"near-1": -1, "near": 0, "near+1": 1}[b]))
+                        budgets.append(b)
+                    case["budgets"] = budgets
+                    case["tail_max"] += len(budgets)
+                    yield "budget:systematic", case
+    for k in range(n_random):
+        st = Stream(seed, k, 0xB6C18)
+        ntasks = 1 + st.below(3)
+        ops = [[[st.choice((0, 1, 1, 2, 3, 4, 7, 64, 1000, SC.YIELD)), 1 if st.chance(1, 2) else 0]
+                for _ in range(1 + st.below(5))] for _ in range(ntasks)]
+        nb = st.below(5)
+        se = [st.chance(1, 5) for _ in range(ntasks)]
+        at = [st.below(nb + 1) if (nb and st.chance(1, 4)) else 0 for _ in range(ntasks)]
+        case = _mk_case(_assign_events(ops, se, at), [], st.choice(BIG_CLOCK))
+        case["tail_budget"] = st.choice((U64, U64, U64 - 1, 2 ** 63, 2 ** 64 - 2 ** 32, TAIL_BUDGET))
+        budgets = []
+        for _ in range(nb):
+            budgets.append(_big_budget(st, _clock_after(case, budgets)))
+        case["budgets"] = budgets
+        case["tail_max"] += nb
+        yield "budget:random", case
+
+
+def _extra_shard(task: Tuple[int, int, str, int, int, int]) -> Report:
+    shard, nshards, tier, seed, n_payload, n_budget = task
+    rep = Report()
+    gen = itertools.chain(_payload_cases(tier, seed, n_payload), _budget_cases(tier, seed, n_budget))
+    for n, (fam, case) in enumerate(gen):
+        if n % nshards != shard:
+            continue
+        vs, labels, nt = eval_sched(case)
+        _record(rep, case, vs, labels, nt, 397, (fam, fam.split(":")[0] + ":any"))
+    return rep
+
+
 def eval_sched(case: Dict[str, Any]) -> Tuple[List[Violation], List[str], bool]:
     """Run one scheduler case (plus its single-budget reference and a repeat) and return the verdicts."""
     late = any(t.get("at", 0) > 0 for t in case["tasks"])
@@ -769,6 +959,8 @@ def _dispatch(task: Tuple[Any, ...]) -> Report:
             return _dur_shard(task[1:])
         if kind == "defer":
             return _defer_shard(task[1:])
+        if kind == "extra":
+            return _extra_shard(task[1:])
         return _cpu_shard(task[1:])
     except _Hang as exc:
         # The shard's partial results are dropped; run() turns this into exit 2 unless another shard produced a
@@ -801,6 +993,8 @@ def run(ctx: Ctx) -> Report:
         tasks.append(("dur", i, 16, ctx.tier, base, ctx.pick(2400, 16000)))
     for i in range(16):
         tasks.append(("defer", i, 16, ctx.tier, base, ctx.pick(3000, 24000)))
+    for i in range(16):
+        tasks.append(("extra", i, 16, ctx.tier, base, ctx.pick(3000, 24000), ctx.pick(3000, 24000)))
     for i in range(n_enum):
         tasks.append(("enum", i, n_enum, ctx.tier))
     reports = ctx.pmap(_dispatch, tasks)
